@@ -1,7 +1,7 @@
 """C16 - user_state is synchronised child-to-parent at end of life, and only then."""
 import ast
 
-from ..astutil import (AnalysisError, dotted, calls_in, last_attr, receiver, norm, is_name, walk_local, is_self_attr,
+from ..astutil import (receiver_texts, AnalysisError, dotted, calls_in, last_attr, receiver, norm, is_name, walk_local, is_self_attr,
                        loc, short, parent_map, names_in)
 from ..cfg import is_flow, path_str
 from ..lifecycle import lifecycle, worker_classes, PUBLIC
@@ -49,6 +49,20 @@ def run(ctx):
                     sends.setdefault(id(r.stmt), r)
             ctx.floor(f'{lc.main.short}: outcome sends', len(sends), 1 if lc.outcome_var else 2)
             check_report_first(ctx, cls, lc, attr)
+            # the state travels in the child's final message: the parent's end of that pipe is closed by nobody but the function that reads the message
+            chan_end = f'self.{lc.outcome_channel}.parent_end'
+            for c in lc.cls.mro():
+                if isinstance(c, str):
+                    continue
+                for f2 in c.methods.values():
+                    if f2 is lc.main or f2 is lc.get_result or (f2.qualname, 'close') in seen:
+                        continue
+                    for call in calls_in(f2.node):
+                        if last_attr(call) == 'close' and chan_end in receiver_texts(f2.node, call):
+                            seen.add((f2.qualname, 'close'))
+                            ctx.check('R1', f'{f2.short}: the pipe that carries the final (outcome, state) message is not closed before the message has been read', False, f2.short,
+                                      f'state-channel-closed:{f2.name}', f'{f2.short} closes {chan_end} while the child\'s final message may still be unread: the parent keeps the '
+                                      'initial user_state (and restart() passes it on) although the child reported', where=loc(f2, call))
             st_of = {n.id: e for n, e in lc.state_sends}
             for r in sends.values():
                 a = r.call.args[0] if r.call.args else r.call
